@@ -226,6 +226,8 @@ class Client(base_client.BaseClient):
         self._trigger_event('connect', run_async=False)
 
         for pkt in p.packets[1:]:
+            if self.state != 'connected':
+                break
             self._receive_packet(pkt)
 
         if 'websocket' in self.upgrades and 'websocket' in self.transports:
@@ -515,6 +517,8 @@ class Client(base_client.BaseClient):
                 self.queue.put(None)
                 break
             for pkt in p.packets:
+                if self.state != 'connected':
+                    break
                 self._receive_packet(pkt)
 
         if self.write_loop_task:  # pragma: no branch
